@@ -1,4 +1,5 @@
 import HdModel.Lemmas.PoolFrame
+import HdModel.Props.Builder
 /-! # C05 — the pool never hands out a closed or expired connection
 
 `idlePop` mirrors `IdleConnections::pop`. Theorems for **every** idle list, clock value, timeout and
